@@ -51,6 +51,9 @@ def check(ctx: Ctx) -> None:
         "histories is a runtime matter and is not decided.")
     ctx.trust("str.split() splits on whitespace runs", "Engine A abstract semantics", "re module evaluated on sample property names")
     prog = ctx.prog
+    # the helpers write through TagAttrDict (update / item assignment): a plain token string written there is the string read back
+    from .c03 import setitem_obligations
+    setitem_obligations(ctx, "C16", exact=True)
     # ---------------- add_class ---------------------------------------------------------------------------------------------------
     pre = SBool(("param", "prepend"))
     for meth, argn in (("add_class", "class_"), ("add_style", "style")):
